@@ -38,7 +38,7 @@ def header2 (st : Dict) (ss : List (Str × Option Str)) (a : Args) : M Header :=
   if !Pyxv.Rows.isXmlTag (surveyOf (jsonRoot2 st a ss)).name then
     .error (.err (.badName (surveyOf (jsonRoot2 st a ss)).name)) else
   if nsTricky (surveyOf (jsonRoot2 st a ss)) || headerTricky st (headerOf2 st ss a) then
-    .error (.unsupported "namespace prefix `xmlns` / with a colon, xmlns: root attribute, or ${} in instance_name") else
+    .error (.unsupported "namespace prefix `xmlns` / with a colon in `namespaces`, or ${ in instance_name") else
   if !(headerOf2 st ss a).xmlOk then .error (.err .xmlInvalid) else
   .ok (headerOf2 st ss a)
 
